@@ -9,6 +9,7 @@ import (
 	"context"
 	"fmt"
 	"io"
+	"net/http"
 	"strings"
 	"testing"
 	"testing/synctest"
@@ -278,6 +279,73 @@ func c35ValidRequestHeaders() []byte {
 	return append(b, sec...)
 }
 
+// c35ServerRequest builds a request stream for the real server path: a HEADERS frame with
+// method / expect / content-length / trailer combinations, DATA frames that match, exceed or fall
+// short of the declared length (or are absent), optional trailers, optional unknown frames.
+func c35ServerRequest(r *vu.Rng) []byte {
+	var enc qpackEncoder
+	enc.init()
+	method := []string{"GET", "POST", "POST", "PUT", "HEAD", "CONNECT", "OPTIONS"}[r.Intn(7)]
+	expect := []string{"", "", "100-continue", "100-Continue", "bogus"}[r.Intn(5)]
+	cl := []string{"", "", "0", "0", "5", "3", "abc", "-1"}[r.Intn(8)]
+	trailer := []string{"", "", "", "X-T", "x-t, content-length"}[r.Intn(5)]
+	sec := enc.encode(func(f func(itype indexType, name, value string)) {
+		f(mayIndex, ":method", method)
+		if method != "CONNECT" || r.Chance(1, 8) {
+			f(mayIndex, ":scheme", "https")
+			f(mayIndex, ":path", []string{"/", "/a?b=c", "*"}[r.Intn(3)])
+		}
+		if r.Chance(9, 10) {
+			f(mayIndex, ":authority", "example.com")
+		}
+		if expect != "" {
+			f(mayIndex, "expect", expect)
+		}
+		if cl != "" {
+			f(mayIndex, "content-length", cl)
+		}
+		if trailer != "" {
+			f(mayIndex, "trailer", trailer)
+		}
+		if r.Chance(1, 6) {
+			f(mayIndex, []string{"connection", "te", "upgrade", "x-ok"}[r.Intn(4)], "trailers")
+		}
+	})
+	frame := func(ft uint64, payload []byte) []byte {
+		b := c35Varint(ft)
+		b = append(b, c35Varint(uint64(len(payload)))...)
+		return append(b, payload...)
+	}
+	var b []byte
+	if r.Chance(1, 6) {
+		b = append(b, frame(0x21, r.Bytes(r.Intn(4)))...)
+	}
+	b = append(b, frame(1, sec)...)
+	switch r.Intn(5) {
+	case 0: // no DATA at all
+	case 1:
+		b = append(b, frame(0, []byte("hello"))...)
+	case 2:
+		b = append(b, frame(0, []byte("hel"))...)
+		if r.Bool() {
+			b = append(b, frame(0x40, r.Bytes(2))...)
+			b = append(b, frame(0, []byte("lo"))...)
+		}
+	case 3:
+		b = append(b, frame(0, r.Bytes(r.Intn(9)))...)
+	default:
+		b = append(b, frame(0, nil)...)
+	}
+	if r.Chance(1, 4) {
+		tsec := enc.encode(func(f func(itype indexType, name, value string)) { f(mayIndex, "x-t", "v") })
+		b = append(b, frame(1, tsec)...)
+	}
+	if r.Chance(1, 10) && len(b) > 0 {
+		b = b[:len(b)-1-r.Intn(min(3, len(b)))]
+	}
+	return b
+}
+
 func c35Gen(r *vu.Rng, i int) []string {
 	switch k := r.Intn(100); {
 	case k < 15: // free-form primitive sequence
@@ -391,6 +459,8 @@ func c35Gen(r *vu.Rng, i int) []string {
 		}
 		data = append(data, c35ValidRequestHeaders()...)
 		return []string{"phdr " + vu.Hex(data)}
+	case k < 93: // a whole well-formed request through the REAL serverConn.handleRequestStream
+		return []string{"sreq " + vu.Hex(c35ServerRequest(r))}
 	default: // request stream through genericConn + the harness request handler
 		data := c35RequestStream(r)
 		if r.Chance(1, 3) {
@@ -445,6 +515,9 @@ func (x *c35Exec) exec(ops []string, o *vu.Out) {
 			continue
 		case t[0] == "uni" && len(t) == 2:
 			o.Op(op, x.uni(vu.MustHex(t[1]), o))
+			continue
+		case t[0] == "sreq" && len(t) == 2:
+			o.Op(op, x.sreq(vu.MustHex(t[1]), o))
 			continue
 		case t[0] == "phdr" && len(t) == 2:
 			o.Op(op, x.phdr(vu.MustHex(t[1]), o))
@@ -663,6 +736,40 @@ func (x *c35Exec) req(k int, data []byte, o *vu.Out) string {
 		x.oracleReq(data, bodyBytes, h.herr, reachedBody, o)
 	}
 	return out
+}
+
+// sreq runs the unmodified serverConn.handleRequestStream (under genericConn.handleRequestStream,
+// as the accept loop does) on a whole request stream, with an http.Handler that reads the body to
+// its end and answers 200. The model does not cover request construction in server.go: the only
+// modelled outcome is "does not panic" (result "ok").
+func (x *c35Exec) sreq(data []byte, o *vu.Out) string {
+	st, cleanup := x.rig.open(data)
+	defer cleanup()
+	var gc genericConn
+	ran := false
+	h := &c35Handler{}
+	h.sc.qconn = x.rig.c2
+	h.sc.enc.init()
+	h.sc.handler = http.HandlerFunc(func(w http.ResponseWriter, r *http.Request) {
+		ran = true
+		io.Copy(io.Discard, r.Body)
+		w.WriteHeader(200)
+	})
+	h.req = func(st *stream) error { return h.sc.handleRequestStream(st) }
+	res, panicked, msg := vu.CatchMsg(func() string {
+		gc.handleRequestStream(st, h)
+		return "ok"
+	})
+	if panicked {
+		o.Fail("", fmt.Sprintf("serverConn.handleRequestStream panicked (%s) on request stream bytes %x", msg, data))
+		return "panic"
+	}
+	if ran {
+		o.Stat("sreq:handler-ran")
+	} else {
+		o.Stat("sreq:rejected:" + c35ErrTag(h.herr))
+	}
+	return res
 }
 
 // phdr runs the unmodified serverConn.parseHeader on the bytes. Oracle: complete frames of unknown
